@@ -112,10 +112,10 @@ def run_case(case):
             v.witness.setdefault("run", {k: run[k] for k in ("cfg", "shapes", "groups", "T", "presence_kind", "presence", "edits", "grad_scale", "grad_kind")})
             raise
         except Exception as e:  # noqa
-            if type(e).__name__ == "PreconditionerValueError" and obs.nonfinite_from_finite:
-                c["aborted_lapack_returned_nonfinite"] = 1
-            else:
+            why = c01.classify_abort(e, run, obs)
+            if why is None:
                 raise
+            c[why] = 1
         # re-entry: some parameter absent at step t and present at a later step
         pres = run["presence"]
         reentry = any(not pres[t][j] and any(pres[u][j] for u in range(t + 1, len(pres))) and any(pres[u][j] for u in range(0, t)) for t in range(len(pres)) for j in range(len(pres[0])))
